@@ -22,13 +22,13 @@ pub fn meta() -> CheckMeta {
 }
 
 pub fn n_runs(tier: &str) -> u64 {
-    if tier == "quick" { 640 } else { 24_000 }
+    if tier == "quick" { 6_000 } else { 400_000 }
 }
 
 pub fn gen(tier: &str, seed: u64, idx: u64, base: u64) -> Spec {
     let _ = tier;
     let mut rng = Rng::new(seed);
-    let world = pick_world(&mut rng, base, idx, 35, wgen::Profile::Any);
+    let world = pick_world(&mut rng, base, idx, 55, wgen::Profile::Any);
     let slots = vec![
         SlotCfg::slg(),
         SlotCfg::rec(),
@@ -143,7 +143,28 @@ pub fn exec(spec: &Spec, r: &mut RunResult) {
                     fmt_out(&out),
                     fmt_out(&fresh)
                 );
-                r.violate("warm-differs-from-fresh", detail, None);
+                // signature facts: solver kind; program coherence; is one answer merely the weaker (ambiguous) form of the other?
+                let mut sig = format!("{}:warm-differs-from-fresh", cfg.kind());
+                if let Ok((prog, _)) = wgen::parse_world(&spec.world) {
+                    if wgen::has_overlapping_impls(&prog) {
+                        sig.push_str("+overlap");
+                    }
+                    if let Some(Ok(ast)) = wgen::parse_world(&spec.world).ok().and_then(|(_, g)| g.get(op.goal).cloned()) {
+                        let mut gp = vec![];
+                        ast.preds(&mut gp);
+                        let tainted = wgen::co_tainted(&prog);
+                        if gp.iter().any(|p| tainted.contains(&p.tr)) {
+                            sig.push_str("+co-reach");
+                        }
+                    }
+                }
+                if let (Out::Ans(a), Out::Ans(b)) = (&out, &fresh) {
+                    let amb = |s: &Sol| s.as_ref().map(|x| x.is_ambig()).unwrap_or(false);
+                    if (amb(a) || amb(b)) && cmp::contradiction(a, b).is_none() {
+                        sig.push_str("+weaker");
+                    }
+                }
+                r.violate("warm-differs-from-fresh", detail, Some(&sig));
                 if matches!(out, Out::Panic(_)) {
                     poisoned[op.slot] = true;
                 }
